@@ -14,6 +14,12 @@ PROPS = {
     "C08": {
         "level": "proof",
         "design_ref": "DESIGN.md §3 C08",
+        "technique": "Kani function-level contract harness over all (state, byte) + Verus inductive fold lemma on the extracted Rabin::write",
+        "level_text": "Deductive proof: the real CRC step equals the bitwise CRC-64-AVRO definition for every state and byte (CBMC, complete), "
+                      "and Verus proves on the mechanically extracted Rabin::write that writing any byte string of any length is the fold of that step "
+                      "(so streaming the canonical form in pieces is sound). The canonical-form text itself is a bounded obligation, labelled so.",
+        "level_note": "Trusted: Kani/CBMC/Verus/Z3, std as modelled by Kani, the three documented mechanical rewrites of the Verus extraction. "
+                      "JSON re-spelling invariance is not decided (parser out of reach).",
         "verus": ["rabin_fold"],
         "assumptions": [A1, A7, A8],
         "explanation": "CRC-64-AVRO step of the real Rabin::write proved equal to the bitwise specification for all (state, byte); "
@@ -24,6 +30,10 @@ PROPS = {
     "C18": {
         "level": "proof",
         "design_ref": "DESIGN.md §3 C18",
+        "technique": "Kani contract harnesses on check_header / from_single_object_{slice,reader} / to_single_object, full input domain",
+        "level_text": "Deductive proof for all inputs of the functions under contract: header acceptance iff marker and fingerprint match (2^144 cases), "
+                      "truncated headers rejected, payload decoded exactly as the datum decoder does, reader path identical under chunking, writer layout exact.",
+        "level_note": "Schema built by an injected constructor (static nodes), value type long; CRC-64 collisions cannot be excluded; A1 A4 A6 A8.",
         "assumptions": [A1, A4, A6, A7, A8,
                         "Schema values are built by the injected constructor mk_schema (private fields set directly), not by parse/freeze"],
         "explanation": "check_header for all 2^80 headers x all fingerprints; slice and reader entry points for node long over all inputs "
@@ -32,3 +42,11 @@ PROPS = {
                         "value types other than long after the header (the datum path is C01/C03's subject)"],
     },
 }
+
+
+NOT_APPLICABLE = [
+    {"property_id": "C05", "reason": "quantifies over external compression libraries (miniz_oxide via flate2; bzip2/xz/zstd/snappy are FFI or not compiled by the pinned default-feature build): no contract within reach of Kani/Verus can state inflate(deflate(x)) == x, and assuming it leaves nothing of the property to decide; the repository-side framing obligations are discharged under C06/C15/C17 for the null codec"},
+    {"property_id": "C07", "reason": "the behaviour lives in one 200-line recursive function over a serde_json-deserialized AST with a HashMap name table and inline string rules: no function boundary to put a contract on without rewriting it (a model), CBMC does not get through serde_json or HashMap (measured), Verus accepts neither serde-derived types nor str reasoning"},
+    {"property_id": "C09", "reason": "both directions are serde_json text production/consumption plus the parser of C07; 'parses back to an isomorphic graph' needs the parser under contract; string/JSON reasoning is outside both verifiers' reach here"},
+    {"property_id": "C20", "reason": "the subject is a proc-macro (token stream -> Rust code) and the quantifier is over programs (type definitions): neither verifier can take a proc-macro as the code under contract and the generated code differs per type, so there is no fixed function to annotate"},
+]
